@@ -981,4 +981,10 @@ def r8(F, R):
     R.floor(3, "clone clauses")
 
 
-RULES = [("R1", r1, None), ("R2", r2, None), ("R3", r3, None), ("R4", r4, None), ("R5", r5, None), ("R6", r6, None), ("R7", r7, None), ("R8", r8, None)]
+def r9(F, R):
+    """Normalize takes events apart with `Event::split` and re-wraps them with `insert` / `wrap`: those keep the stored metadata (= C13.R7)."""
+    if roles.check_event_metadata_kept(F, R):
+        R.floor(3)
+
+
+RULES = [("R1", r1, None), ("R2", r2, None), ("R3", r3, None), ("R4", r4, None), ("R5", r5, None), ("R6", r6, None), ("R7", r7, None), ("R8", r8, None), ("R9", r9, ["all", "timestamps"])]
